@@ -192,6 +192,18 @@ def observe(pool, rg, scn, want_git=True, walkers=("parallel", "serial"), visibl
             ob2["files"] = sorted(x[len(prefix):] if x.startswith(prefix) else "?" + x for x in ob2["files"])
             res["below"].append({"roots": [arg], "cwd": cwd2 or ".", "walker": w, "ob": ob2, "named": True,
                                  "expected": [p[len(d) + 1:] for p in expected_below(visible, [d])]})
+            # the same directory reached through a symbolic link that lies outside the repository and is named as the
+            # root: roots are followed, and the parent ignore files are those of the directory the link resolves to
+            if k == 0:
+                lnk = r.dir + ".lnk"
+                if os.path.lexists(lnk):
+                    os.unlink(lnk)
+                os.symlink(os.path.join(r.dir, d), lnk)
+                for w3 in ("serial", "parallel"):
+                    ob3 = r.rg_visible(rg, scn["ci"], w3, parent=True, paths=["--", lnk])
+                    ob3["files"] = sorted(x[len(lnk) + 1:] if x.startswith(lnk + "/") else "?" + x for x in ob3["files"])
+                    res["below"].append({"roots": [lnk], "cwd": ".", "walker": w3, "ob": ob3, "named": True, "link": d,
+                                         "expected": [p[len(d) + 1:] for p in expected_below(visible, [d])]})
         # (b) several roots named on the command line, the ignore files of the cwd are parents of each of them
         top = [d for d in ds if "/" not in d]
         if len(top) >= 2:
@@ -353,10 +365,10 @@ def explore(chk, cfgname, rg, timeout):
             rel = [p[len(b["cwd"]) + 1:] if False else p for p in diff]
             depth = max([len((p if b["cwd"] else p.split("/", 1)[-1]).split("/")) for p in rel] or [0])
             sig = dict(make_sig(rec, [((b["cwd"] + "/") if b["cwd"] else "") + p for p in diff], b["walker"], listed, hidden),
-                       start="named_root" if b.get("named") else "subdirectory" if b["cwd"] else "several_roots", depth_below_root=min(depth, 3))
+                       start="linked_root" if b.get("link") else "named_root" if b.get("named") else "subdirectory" if b["cwd"] else "several_roots", depth_below_root=min(depth, 3))
             chk.violation(sig, {"why": "search started below the ignore files (%s): rg lists %s which git ignores; rg skips %s which git does not ignore"
                                        % ("cwd=" + b["cwd"] if b["cwd"] else "roots " + " ".join(b["roots"]), listed, hidden),
-                                "scenario": scn, "cwd": b["cwd"], "roots": b["roots"], "expected_visible": b["expected"], "observed": ob,
+                                "scenario": scn, "cwd": b["cwd"], "roots": b["roots"], "link": b.get("link"), "expected_visible": b["expected"], "observed": ob,
                                 "walker": b["walker"], "driver": "c04.py"})
         # coverage accounting
         cat("repositories")
@@ -428,7 +440,12 @@ def replay(path):
         try:
             rp = pool.repo()
             rp.materialise(scn)
-            if r["cwd"]:
+            if r.get("link"):
+                lnk = rp.dir + ".lnk"
+                os.symlink(os.path.join(rp.dir, r["link"]), lnk)
+                ob = rp.rg_visible(rg, scn["ci"], walker, parent=True, paths=["--", lnk])
+                ob["files"] = sorted(x[len(lnk) + 1:] if x.startswith(lnk + "/") else "?" + x for x in ob["files"])
+            elif r["cwd"] and r["cwd"] != ".":
                 ob = rp.rg_visible(rg, scn["ci"], walker, cwd=r["cwd"], parent=True)
             else:
                 ob = rp.rg_visible(rg, scn["ci"], walker, parent=True, paths=["--"] + r["roots"])
